@@ -415,7 +415,7 @@ def gen_path(rng, nsteps, depth=2, inner=False):
         e = ['g', gen_path(rng, rng.choice([1, 2]), depth - 1)]
         for _ in range(rng.choice([1, 1, 2])):
             e = ['p', e, gen_pred(rng, depth - 1)]
-    elif r < 0.52 and nsteps == 1:
+    elif r < 0.52 and nsteps == 1 and not inner:
         return ['r0']
     else:
         e = gen_stepish(rng, depth)
@@ -677,7 +677,8 @@ def compare(run: Run, cases: list[dict], full: bool = True, lxml_check: bool = T
                 if kind in ('E', 'D') or (b.mode == 'dummy' and i == 1):
                     self_check_public(run, it, b, cji, path, i, impl, tags)
             # ---- libxml2 validates the SPEC (not the implementation)
-            if use_lxml and k == 0:
+            if use_lxml and k == 0 and not (b.recs[i][0] in 'CP' and b.recs[i][3] == 0):
+                # (libxml2 is erratic on the preceding axis of document-level siblings of the root element)
                 lr = lxml_result(b, path, i)
                 if lr is not None:
                     want = nstr([j for j in ids if j != 0])
